@@ -1081,6 +1081,8 @@ impl DbInner {
 					"Enacting log record {}",
 					reader.record_id(),
 				);
+				#[cfg(parity_db_verif)]
+				crate::verif::event("enact_begin", reader.record_id(), validation_mode as u64);
 				if validation_mode {
 					if reader.record_id() != self.last_enacted.load(Ordering::Relaxed) + 1 {
 						log::warn!(
@@ -1226,6 +1228,8 @@ impl DbInner {
 				let bytes = reader.read_bytes();
 				let cleared = reader.drain();
 				self.last_enacted.store(record_id, Ordering::SeqCst);
+				#[cfg(parity_db_verif)]
+				crate::verif::event("enact_end", record_id, validation_mode as u64);
 				Some((record_id, cleared, bytes))
 			} else {
 				log::debug!(target: "parity-db", "End of log");
